@@ -7,6 +7,15 @@ rasters are enumerated as *all* sequences of N cells over (zone alphabet x value
   par_*     zone_ids x nodata_values (+ each with the DataArray form)  (core alphabets; parx_* = full product
             zone_ids x nodata_values x return_type)
   fun_*     stats_funcs (names, pairs, reversed list, user reducers) x return_type (fun1_* = without the pairs)
+  near_*    nodata_values = 0 / 3 / 1000.0 with a value alphabet made of nodata itself, its two float64 neighbours
+            (np.nextafter), nodata + 5e-9, nodata * (1 + 5e-6) and two ordinary letters: a value that is close to
+            but different from nodata is a valid cell ("finite and different from nodata_values")
+  gap_*     zone_ids sub-lists over (ids present in a raster with zones from {10, 20, 40}) + the absent ids
+            5, 25, 99: absent ids below the minimum, between two existing ids and above the maximum, alone and
+            mixed with existing ids, in any order
+  memb_* / memp_*   memory layout of the two rasters (C-ordered, Fortran-ordered, transposed view - chosen
+            independently for zones and values) on the non-square shapes 2x3, 3x2, 2x4, where memory order and
+            logical order differ; the oracle works on logical cell positions
 One rank = one call of xrspatial.zonal.stats, compared with the dictionary group-by model of
 xrmc/oracles/zonal.py."""
 import itertools
@@ -25,7 +34,14 @@ RULE = ("every sequence of N (zone, value) cells over the listed alphabets (rank
         "zonal.stats.  Parameter settings: zone_ids in {None} + all ordered sub-lists (length 0..3, no repetition) of "
         "(ids present in the raster + the absent id 5); nodata_values in {None, 0, 3}; stats_funcs in {default list, "
         "each single name, each unordered pair, reversed default list, dict of three user reducers, three one-reducer "
-        "dicts}; return_type both.  A case is non-trivial when at least one selected zone has a valid cell; "
+        "dicts}; return_type both.  near_* spaces: nodata_values fixed per space (0, 3, 1000.0), value letters = nodata, "
+        "nextafter(nodata, +-inf), nodata+5e-9, nodata*(1+5e-6) (nodata=0: -5e-9), 1.0, NaN; gap_* spaces: zone_ids in "
+        "{None} + all ordered sub-lists (length 0..3) of (ids present + absent ids 5, 25, 99) over the zone alphabet "
+        "{10, 20, 40}; memb_* spaces: every zones raster over {1, 2} x every values raster over {0, 1} x layout pairs "
+        "(zones, values) in {C, F}^2 minus (C, C); memp_* spaces: every zones raster over {1, 2} x the position rasters "
+        "(1..N in flatten order; each one-hot raster) x layout pairs in {C, F, T}^2 minus (C, C), where C = C-contiguous, "
+        "F = np.array(order='F'), T = transposed view of a C-contiguous array of the transposed shape.  "
+        "A case is non-trivial when at least one selected zone has a valid cell; "
         "distinct = distinct digests of the returned table / raster")
 ASSUMPTIONS = [
     "NumPy backend only (Dask is C03's subject); CuPy not explorable here",
@@ -39,6 +55,12 @@ ASSUMPTIONS = [
     "coords / attrs / dtype of the result are not part of the statement and are not asserted",
     "comparison tolerance rtol 1e-9 (atol 1e-12) against exact rational arithmetic on the small-integer / dyadic "
     "alphabets; rtol 1e-5 (atol 1e-6) when the values are float32 (the reducers then run in float32)",
+    "near-nodata letters are float64 only (for nodata=0 the neighbours are the two smallest subnormals); with them "
+    "std / var of values that differ by a few ulp are compared within the same rtol 1e-9 / atol 1e-12 (the absolute "
+    "term covers the cancellation error of the two-pass variance: |error| <= ~2e-13 * max deviation)",
+    "memory layouts: contiguous C / Fortran order and whole-array transposed views only (no negative or "
+    "non-unit strides); rasters are handed to xarray.DataArray without copying, the layout is asserted by the check "
+    "(counter layout:*)",
 ]
 NAN, INF = float("nan"), float("inf")
 ABSENT = 5
@@ -50,7 +72,42 @@ FAMILIES = {
     "f8i4": ((0.0, 2.0, 7.0, NAN), (0, 1, 3, 5), "f8", "i4"),
     "i4f4": ((0, 2, 7, -3), (0.0, 1.0, 3.0, NAN), "i4", "f4"),
     "ext": ((0.0, 2.0, 7.0, -1.5, NAN, INF, -INF), (0.0, 1.0, 3.0, 5.0, NAN, INF), "f8", "f8"),
+    # absent requested ids below / between / above the existing ones (see ABSENT_IDS)
+    "f8": ((10.0, 20.0, 40.0), (1.0, 3.0), "f8", "f8"),
+    "i8": ((10, 20, 40), (1, 3), "i8", "i8"),
+    # memory layout spaces
+    "bin": ((1.0, 2.0), (0.0, 1.0), "f8", "f8"),
+    "pos": ((1.0, 2.0), ("1..N", "one-hot"), "f8", "f8"),
 }
+
+
+def near_letters(nd):
+    """nodata itself, its float64 neighbours, values within 1e-9 absolute / 1e-6 relative of it, two ordinary letters."""
+    nd = float(nd)
+    rel = nd * (1 + 5e-6) if nd != 0 else -5e-9
+    out = (nd, float(np.nextafter(nd, INF)), float(np.nextafter(nd, -INF)), nd + 5e-9, rel, 1.0, NAN)
+    assert len({x for x in out if x == x}) == 6 and all(x != nd for x in out[1:5])
+    return out
+
+
+NEAR_NODATA = {"nd0": 0, "nd3": 3, "nd1k": 1000.0}
+for _f, _nd in NEAR_NODATA.items():
+    FAMILIES[_f] = ((0.0, 2.0, NAN), near_letters(_nd), "f8", "f8")
+ABSENT_IDS = {"f8": (5, 25, 99), "i8": (5, 25, 99)}      # default: (ABSENT,)
+MEM_ALL = [(a, b) for a in "CFT" for b in "CFT" if (a, b) != ("C", "C")]
+MEM_CF = [(a, b) for a in "CF" for b in "CF" if (a, b) != ("C", "C")]
+MEM_SHAPES = ((2, 3), (3, 2), (2, 4))
+
+
+def laid_out(a, how):
+    """Copy of the 2-D array `a` (same logical content) with the requested memory layout."""
+    if how == "C":
+        return a.copy(order="C")
+    if how == "F":
+        return np.array(a, order="F", copy=True)
+    if how == "T":
+        return a.T.copy(order="C").T
+    raise KeyError(how)
 NODATA = (None, 0, 3)
 RTYPES = ("df", "xr")
 SINGLES = [(n,) for n in oz.STAT_NAMES]
@@ -65,24 +122,37 @@ FUNC_OPTIONS = ([("default", oz.STAT_NAMES)] + [("list", s) for s in SINGLES] + 
 #   par   zone_ids x nodata (DataFrame) + zone_ids x DataArray + nodata x DataArray   (one at a time + the stated pair)
 #   parx  full product zone_ids x nodata x return_type
 #   fun   every stats_funcs option x return_type;   fun1 = without the 21 pairs
+#   near  nodata fixed by the family x return_type
+#   gap   zone_ids (present + absent ids below / between / above) x return_type
+#   memb / memp  layout pairs x return_type on the shapes of MEM_SHAPES with N cells
 PLAN = {
-    "quick": [("def", "f8f8", (1, 2, 3, 4), "all"), ("def", "i8i8", (1, 2, 3), "all"),
+    "quick": [("def", "f8f8", (1, 2, 3), "all"), ("def", "f8f8", (4,), "square"), ("def", "i8i8", (1, 2, 3), "all"),
               ("def", "f8i4", (1, 2, 3), "all"), ("def", "i4f4", (1, 2, 3), "all"),
               ("def", "ext", (1, 2, 3), "all"),
               ("parx", "f8f8", (1, 2), "all"), ("par", "f8f8", (3,), "all"), ("parx", "i8i8", (1, 2), "all"),
-              ("fun", "f8f8", (1, 2), "all"), ("fun1", "f8f8", (3,), "all"), ("fun", "i8i8", (2,), "all")],
+              ("fun", "f8f8", (1, 2), "all"), ("fun1", "f8f8", (3,), "all"), ("fun", "i8i8", (2,), "all"),
+              ("near", "nd0", (1, 2, 3), "all"), ("near", "nd3", (1, 2, 3), "all"), ("near", "nd1k", (1, 2, 3), "all"),
+              ("gap", "f8", (1, 2, 3), "all"), ("gap", "i8", (2,), "all"),
+              ("memb", "bin", (6,), MEM_SHAPES), ("memp", "pos", (6, 8), MEM_SHAPES)],
     "thorough": [("def", "f8f8", (1, 2, 3, 4, 5), "all"), ("def", "i8i8", (1, 2, 3, 4), "all"),
                  ("def", "f8i4", (1, 2, 3, 4), "all"), ("def", "i4f4", (1, 2, 3, 4), "all"),
                  ("def", "ext", (1, 2, 3), "all"),
                  ("parx", "f8f8", (1, 2, 3), "all"), ("par", "f8f8", (4,), "square"),
                  ("parx", "i8i8", (1, 2, 3), "all"),
-                 ("fun", "f8f8", (1, 2, 3), "all"), ("fun1", "f8f8", (4,), "square"), ("fun", "i8i8", (1, 2, 3), "all")],
+                 ("fun", "f8f8", (1, 2, 3), "all"), ("fun1", "f8f8", (4,), "square"), ("fun", "i8i8", (1, 2, 3), "all"),
+                 ("near", "nd0", (1, 2, 3), "all"), ("near", "nd3", (1, 2, 3), "all"),
+                 ("near", "nd1k", (1, 2, 3), "all"),
+                 ("gap", "f8", (1, 2, 3, 4), "all"), ("gap", "i8", (1, 2, 3), "all"),
+                 ("memb", "bin", (6,), MEM_SHAPES), ("memp", "pos", (6, 8), MEM_SHAPES)],
 }
 FUN1 = [f for f in FUNC_OPTIONS[1:] if not (f[0] == "list" and len(f[1]) == 2)]
 
 
 def layouts(n, policy="all"):
-    """Pad-free shapes: 1xN and, for even N, 2x(N/2); policy 'square' keeps only the 2-row one."""
+    """Pad-free shapes: 1xN and, for even N, 2x(N/2); policy 'square' keeps only the 2-row one; a tuple of
+    shapes keeps those with N cells."""
+    if not isinstance(policy, str):
+        return [tuple(s) for s in policy if s[0] * s[1] == n]
     out = [(1, n)]
     if n % 2 == 0:
         out.append((2, n // 2))
@@ -92,9 +162,15 @@ def layouts(n, policy="all"):
 BOUNDS = {t: {"spaces": [dict(kind=k, family=f, zone_alphabet=[str(x) for x in FAMILIES[f][0]],
                               value_alphabet=[str(x) for x in FAMILIES[f][1]], dtypes=list(FAMILIES[f][2:]),
                               cells=list(ns), layouts={n: layouts(n, pol) for n in ns}) for k, f, ns, pol in plan],
-              "zone_ids": "None + ordered sub-lists of length 0..3 of (present ids + absent id 5)",
-              "nodata_values": [str(x) for x in NODATA], "stats_funcs_options": len(FUNC_OPTIONS),
-              "return_type": list(RTYPES)} for t, plan in PLAN.items()}
+              "zone_ids": "None + ordered sub-lists of length 0..3 of (present ids + absent id 5); gap spaces: "
+                          "present ids (from 10, 20, 40) + absent ids 5, 25, 99",
+              "nodata_values": [str(x) for x in NODATA] + ["near spaces: %s" % sorted(NEAR_NODATA.values())],
+              "stats_funcs_options": len(FUNC_OPTIONS), "return_type": list(RTYPES),
+              "memory_layouts": {"memb": ["z%s,v%s" % m for m in MEM_CF], "memp": ["z%s,v%s" % m for m in MEM_ALL],
+                                 "memp_value_rasters": "1..N in flatten order + the N one-hot rasters"},
+              "trimmed": ("def_f8f8_N4 runs on the 2x2 layout only (the 1xN layouts stay at N <= 3 and in every other "
+                          "family) to pay for the near / gap / mem spaces" if t == "quick" else "nothing")}
+          for t, plan in PLAN.items()}
 
 
 def _fmt(a):
@@ -107,32 +183,45 @@ class StatsSpace(Space):
         self.za, self.va, self.zdt, self.vdt = FAMILIES[fam]
         self.name = "%s_%s_N%d" % (kind, fam, n)
         self.lay = layouts(n, policy)
-        self.nzseq, self.nvseq = len(self.za) ** n, len(self.va) ** n
+        self.nzseq = len(self.za) ** n
+        self.nvseq = n + 1 if kind == "memp" else len(self.va) ** n
         self._vc = {}
         self.rtol, self.atol = (1e-5, 1e-6) if "f4" in (self.zdt, self.vdt) else (1e-9, 1e-12)
         self.pres = [self._present(zi) for zi in range(self.nzseq)]
         self.nvar = [len(self.variants(ids)) for ids in self.pres]
         self.sum = SumSpace([(zi, self.nvar[zi] * self.nvseq) for zi in range(self.nzseq)])
         self.size = self.sum.size
-        self.weight = {"def": 1.0, "par": 0.9, "parx": 0.9, "fun": 0.5, "fun1": 0.5}[kind] * n
+        self.weight = {"def": 1.0, "par": 0.9, "parx": 0.9, "fun": 0.5, "fun1": 0.5}.get(kind, 0.9) * n
 
     # ---- enumeration ---------------------------------------------------------------------------------
     def zseq(self, zi):
         return [self.za[i] for i in unrank_product(zi, [len(self.za)] * self.n)]
 
     def vseq(self, vi):
+        if self.kind == "memp":     # position rasters: 1..N in flatten order, then the one-hot rasters
+            return [float(i + 1) for i in range(self.n)] if vi == 0 else [float(i == vi - 1) for i in range(self.n)]
         return [self.va[i] for i in unrank_product(vi, [len(self.va)] * self.n)]
 
     def _present(self, zi):
         return tuple(sorted({z for z in self.zseq(zi) if oz.finite(z)}))
 
     def variants(self, ids):
-        """(shape, zone_ids, nodata, stats_funcs option, return type) settings for a raster whose zones are `ids`."""
+        """(shape, zone_ids, nodata, stats_funcs option, return type[, (zones layout, values layout)]) settings for a
+        raster whose zones are `ids`."""
         if ids in self._vc:
             return self._vc[ids]
         dflt = FUNC_OPTIONS[0]
         if self.kind == "def":
             v = [(s, None, None, dflt, rt) for s in self.lay for rt in RTYPES]
+        elif self.kind == "near":
+            v = [(s, None, NEAR_NODATA[self.fam], dflt, rt) for s in self.lay for rt in RTYPES]
+        elif self.kind == "gap":
+            absent = [float(a) if self.zdt.startswith("f") else a for a in ABSENT_IDS[self.fam]]
+            zl = [None] + ordered_sublists(list(ids) + absent, 3)
+            v = [(s, z, None, dflt, rt) for s in self.lay for z in zl for rt in RTYPES]
+        elif self.kind in ("memb", "memp"):
+            v = [(s, None, None, dflt, rt, m) for s in self.lay for m in (MEM_CF if self.kind == "memb" else MEM_ALL)
+                 for rt in RTYPES]
         elif self.kind in ("par", "parx"):
             absent = float(ABSENT) if self.zdt.startswith("f") else ABSENT
             zl = [None] + ordered_sublists(list(ids) + [absent], 3)
@@ -153,16 +242,21 @@ class StatsSpace(Space):
     def case(self, rank):
         zi, local = self.sum.locate(rank)
         vi, k = divmod(local, self.nvar[zi])
-        shape, zone_ids, nodata, funcs, rt = self.variants(self.pres[zi])[k]
+        var = self.variants(self.pres[zi])[k]
+        shape, zone_ids, nodata, funcs, rt = var[:5]
         z = np.array(self.zseq(zi), dtype=self.zdt).reshape(shape)
         v = np.array(self.vseq(vi), dtype=self.vdt).reshape(shape)
-        return z, v, zone_ids, nodata, funcs, rt
+        return z, v, zone_ids, nodata, funcs, rt, (var[5] if len(var) > 5 else ("C", "C"))
 
     def describe(self, rank):
-        z, v, zone_ids, nodata, funcs, rt = self.case(rank)
-        return {"zones": z, "values": v, "zone_ids": None if zone_ids is None else list(zone_ids),
-                "nodata_values": nodata, "stats_funcs": [funcs[0], list(funcs[1])],
-                "return_type": "pandas.DataFrame" if rt == "df" else "xarray.DataArray"}
+        z, v, zone_ids, nodata, funcs, rt, mem = self.case(rank)
+        d = {"zones": z, "values": v, "zone_ids": None if zone_ids is None else list(zone_ids),
+             "nodata_values": nodata, "stats_funcs": [funcs[0], list(funcs[1])],
+             "return_type": "pandas.DataFrame" if rt == "df" else "xarray.DataArray"}
+        if mem != ("C", "C"):
+            d["memory_layout"] = {"zones": mem[0], "values": mem[1],
+                                  "legend": "C = C-contiguous, F = np.array(a, order='F'), T = a.T.copy().T (transposed view)"}
+        return d
 
     # ---- exploration ---------------------------------------------------------------------------------
     def setup(self):
@@ -177,7 +271,7 @@ class StatsSpace(Space):
             self.one(rank, out)
 
     def one(self, rank, out):
-        z, v, zone_ids, nodata, funcs, rt = self.case(rank)
+        z, v, zone_ids, nodata, funcs, rt, mem = self.case(rank)
         names = funcs[1]
         kw = {}
         if zone_ids is not None:
@@ -194,6 +288,13 @@ class StatsSpace(Space):
             _fmt(z), _fmt(v), self.zdt, self.vdt, None if zone_ids is None else list(zone_ids), nodata,
             "default" if funcs[0] == "default" else funcs[0] + ":" + ",".join(names), rt)
         ident = ident.replace(" ", "")
+        zin, vin = laid_out(z, mem[0]), laid_out(v, mem[1])
+        if mem != ("C", "C"):
+            ident += "|mem=z%s,v%s" % mem
+            for a, how in ((zin, mem[0]), (vin, mem[1])):       # the layout really is the one named
+                assert a.flags.c_contiguous == (how == "C") and a.flags.f_contiguous == (how != "C"), (how, a.flags)
+                assert a.flags.owndata == (how != "T")
+            out.count("layout:z%s,v%s" % mem)
         cause = "neginf-zone" if bool(np.any(np.isneginf(z))) else "unexplained"
 
         def bad(symptom, msg, observed=None, expected=None):
@@ -202,8 +303,9 @@ class StatsSpace(Space):
                           case=self.describe(rank), observed=observed, expected=expected)
 
         try:
-            res = self.stats(zones=self.DataArray(z.copy(), dims=("y", "x")),
-                             values=self.DataArray(v.copy(), dims=("y", "x")), **kw)
+            zda, vda = self.DataArray(zin, dims=("y", "x")), self.DataArray(vin, dims=("y", "x"))
+            assert zda.data.strides == zin.strides and vda.data.strides == vin.strides   # handed over without a copy
+            res = self.stats(zones=zda, values=vda, **kw)
         except Exception as e:  # in-domain input: an exception is a violation
             out.case(outcome=("exc", type(e).__name__), nontrivial=False, calls=1)
             out.ok()
